@@ -56,7 +56,7 @@ CONFIG = {
     "C01": dict(shards=16, timeout=(600, 3600)),
     "C02": dict(shards=16, timeout=(600, 3600), fuzz=["FuzzDecodeTree"]),
     "C03": dict(shards=16, timeout=(600, 3600), fuzz=["FuzzDecodeNoCrash"]),
-    "C04": dict(shards=8, timeout=(600, 3600)),
+    "C04": dict(shards=8, timeout=(600, 3600), fuzz=["FuzzDateRoundTrip"]),
     "C05": dict(shards=16, timeout=(600, 3600)),
     "C06": dict(shards=8, timeout=(600, 3600)),
     "C07": dict(shards=16, timeout=(600, 3600)),
